@@ -36,7 +36,11 @@ fn semantic_case(cfg: &Config, tmp: &std::path::Path, idx: u64, r: &mut Rng, st:
     if r.chance(1, 4) {
         o.preds = vec![("p".into(), 1), ("q".into(), 1), ("p".into(), 2), ("s".into(), 0), ("u".into(), 1)];
     }
-    let text = gen_program(r, &o);
+    let mut text = gen_program(r, &o);
+    if r.chance(1, 12) {
+        // a cycle that exists only between ground instances of one predicate
+        text = format!("{}\n{text}", crate::kit::generate::gen_ground_cycle(r, &o));
+    }
     let Ok(prog) = parse_program(&text) else {
         st.inc("generator_parse_errors");
         return;
